@@ -60,7 +60,7 @@ fn observe(schema: &Schema, schema_name: &str, query: &str, args: &std::collecti
     }
 }
 
-// @grid c14_grid_determinism tier=quick repeat=2 bound="[+ 100 seeded random accepted documents, VERIF_SEED] every query of the corpus (4 schemas, the frontend-error corpus and 8 erroneous queries whose error carries several items): compiled twice and executed twice in one process, and the whole grid run in two separate processes (different hash seeds); schemas are re-parsed from text in each process"
+// @grid c14_grid_determinism tier=quick repeat=2 bound="[+ 100 seeded random accepted documents, VERIF_SEED] every query of the corpus (4 schemas, the frontend-error corpus 11 erroneous queries whose error carries several items, 4 erroneous argument maps with several items): compiled twice and executed twice in one process, and the whole grid run in two separate processes (different hash seeds); schemas are re-parsed from text in each process"
 // @ob compiling the same query against the same schema yields the same compiled query or the same error, and executing it yields the same rows in the same order through the same sequence of adapter calls - across repetitions and across processes
 pub(crate) fn c14_grid_determinism() {
     let mut n = 0u64;
@@ -89,7 +89,7 @@ pub(crate) fn c14_grid_determinism() {
         n += 1;
     }
     // erroneous queries whose error carries several items (the repository's error corpus has one item per error)
-    const EXTRA_ERRORS: [(&str, &str); 8] = [
+    const EXTRA_ERRORS: [(&str, &str); 11] = [
         ("five_unused_tags", r#"{ Number(max: 3) { value @output @tag(name: "echo") name @tag(name: "charlie") @tag(name: "delta") successor { value @tag(name: "bravo") name @tag(name: "alpha") } } }"#),
         ("two_unused_tags_one_used", r#"{ Number(max: 3) { value @output @tag(name: "zulu") name @tag(name: "kilo") successor { value @tag(name: "mike") @filter(op: ">", value: ["%zulu"]) } } }"#),
         ("three_duplicated_outputs", r#"{ Number(max: 3) { value @output(name: "a") @output(name: "b") name @output(name: "a") successor { value @output(name: "b") name @output(name: "c") predecessor { name @output(name: "c") value @output(name: "a") } } } }"#),
@@ -97,6 +97,9 @@ pub(crate) fn c14_grid_determinism() {
         ("several_filter_type_errors", r#"{ Number(max: 3) { value @output @filter(op: "has_prefix", value: ["$a"]) @filter(op: "contains", value: ["$b"]) name @filter(op: "one_of", value: ["$c"]) @filter(op: "<", value: ["$c"]) vowelsInName @filter(op: "regex", value: ["$d"]) } }"#),
         ("several_undefined_tags", r#"{ Number(max: 3) { value @output @filter(op: ">", value: ["%nope"]) @filter(op: "<", value: ["%never"]) name @filter(op: "=", value: ["%also_not"]) } }"#),
         ("several_bad_edge_parameters", r#"{ Number(max: "x", min: "y", extra: 3) { value @output multiple { value @output(name: "m") } } }"#),
+        ("errors_on_four_vertices", r#"{ Number(max: 3) { value @output @filter(op: "has_prefix", value: ["$a"]) successor { name @filter(op: "<", value: ["%nope1"]) predecessor { vowelsInName @filter(op: "regex", value: ["$b"]) successor { value @filter(op: "contains", value: ["%nope2"]) } } } } }"#),
+        ("errors_on_three_vertices_in_a_fold", r#"{ Number(max: 3) { value @output multiple(max: 2) @fold { value @filter(op: "has_suffix", value: ["$a"]) successor { name @filter(op: "one_of", value: ["%nope1"]) predecessor { vowelsInName @filter(op: ">", value: ["$b"]) @output(name: "z") } } } } }"#),
+        ("errors_on_sibling_edges", r#"{ Number(max: 3) { value @output successor { value @filter(op: "regex", value: ["$a"]) } predecessor { value @filter(op: "has_prefix", value: ["$b"]) } multiple(max: 2) { name @filter(op: "contains", value: ["$c"]) } e2: successor { vowelsInName @filter(op: "<", value: ["$d"]) } } }"#),
         ("several_nonexistent_paths", r#"{ Number(max: 3) { value @output nope @output never { value @output(name: "q") } successor { alsonot @output } } }"#),
     ];
     for (name, query) in EXTRA_ERRORS {
@@ -110,6 +113,26 @@ pub(crate) fn c14_grid_determinism() {
         }
         eprintln!("VERIF-GRID-DIGEST xerr:{} {:016x}", name, fnv(&first));
         n += 1;
+    }
+    // execution-time argument errors carrying several items
+    {
+        let text = std::fs::read_to_string("test_data/schemas/numbers.graphql").unwrap();
+        let q = r#"{ Number(min: 0, max: 3) { value @output @filter(op: ">", value: ["$a"]) @filter(op: "<", value: ["$b"]) name @filter(op: "!=", value: ["$c"]) @filter(op: "has_prefix", value: ["$d"]) } }"#;
+        let arg_sets: [(&str, Vec<(&str, FieldValue)>); 4] = [
+            ("six unused arguments", vec![("a", FieldValue::Int64(0)), ("b", FieldValue::Int64(9)), ("c", FieldValue::String("x".into())), ("d", FieldValue::String("t".into())), ("zulu", FieldValue::Int64(1)), ("kilo", FieldValue::Int64(2)), ("mike", FieldValue::Int64(3)), ("echo", FieldValue::Int64(4)), ("alpha", FieldValue::Int64(5)), ("delta", FieldValue::Int64(6))]),
+            ("four missing arguments", vec![]),
+            ("four ill-typed arguments", vec![("a", FieldValue::String("x".into())), ("b", FieldValue::Null), ("c", FieldValue::Int64(1)), ("d", FieldValue::Boolean(true))]),
+            ("missing, unused and ill-typed at once", vec![("a", FieldValue::String("x".into())), ("zulu", FieldValue::Int64(1)), ("kilo", FieldValue::Int64(2)), ("mike", FieldValue::Int64(3))]),
+        ];
+        for (label, args) in arg_sets {
+            vk::grid_case(format_args!("argument error: {}", label));
+            let args: std::collections::BTreeMap<Arc<str>, FieldValue> = args.into_iter().map(|(k, v)| (Arc::from(k), v)).collect();
+            let first = observe(&Schema::parse(&text).unwrap(), "numbers", q, &args);
+            assert!(first.contains("argument-error"), "harness arguments unexpectedly accepted");
+            for _ in 0..8 { assert!(first == observe(&Schema::parse(&text).unwrap(), "numbers", q, &args), "two executions with the same erroneous arguments report different errors"); }
+            eprintln!("VERIF-GRID-DIGEST argerr:{} {:016x}", label, fnv(&first));
+            n += 1;
+        }
     }
     vk::grid_done("c14_grid_determinism", n);
 }
